@@ -338,6 +338,8 @@ pub fn run(report: &Report, thorough: bool) -> Evidence {
                 // every second configuration is reached through update_engine by a used context created with the options
                 // inverted (driver option via_update)
                 o.via_update = *ci % 2 == 1;
+                // ... and the others are built on a Config object that has held the opposite value of every option before
+                o.churn = *ci % 2 == 0;
                 let mut c = Ctx::new(&o).expect("ctx");
                 c.with_pre = false;
                 c
@@ -419,6 +421,7 @@ pub fn run(report: &Report, thorough: bool) -> Evidence {
                     o.english = english;
                     o.ansi = ansi;
                     o.via_update = wci % 2 == 1;
+                    o.churn = wci % 2 == 0;
                     let mut c = Ctx::new(&o).expect("ctx");
                     c.with_pre = false;
                     v.push(c);
